@@ -2649,6 +2649,13 @@ rfbProcessClientNormalMessage(rfbClientPtr cl)
 		return;
         }
 
+        /* An empty request asks for nothing.  Or-ing a rectangle of zero width or
+         * height into requestedRegion leaves a degenerate region behind that makes
+         * the next update divide by zero (Zlib, Ultra) or announce a rectangle it
+         * never sends (Raw). */
+        if (msg.fur.w == 0 || msg.fur.h == 0)
+            return;
+
         if (cl->clientFramebufferUpdateRequestHook)
             cl->clientFramebufferUpdateRequestHook(cl, &msg.fur);
 
